@@ -1,10 +1,13 @@
 """C07 — parsing is total: no panic, no hang (Kani panic/unwinding obligations + loop progress of all layouts)."""
 import e1
+import e2misc
 import e2tok
 
 
 def run(tier, seed, ev, jobs):
     rc = e2tok.run_tokens("C07", ["unwind", "progress"], tier, seed, ev, jobs)
+    rc = e1.combine(rc, e2misc.run_fmt("C07", ev, "panic"))
+    rc = e1.combine(rc, e2misc.run_block("C07", ev))
     ev.outside.append("inputs longer than the stated sizes (the polynomial-time claim for 1 MB inputs), message-level entry points on "
                       "symbolic text, JSON conversion and plugin functions")
     return e1.combine(rc, e1.run_e1("C07", tier, seed, ev, jobs))
@@ -12,4 +15,6 @@ def run(tier, seed, ev, jobs):
 
 def replay(path):
     r = e2tok.replay_file(path)
+    if r is None:
+        r = e2misc.replay_file(path)
     return r if r is not None else e1.replay_file(path)
